@@ -558,14 +558,55 @@ def _error_norms(chk):
             hk = val(got["h_kernel"])
             if kind == "rk45":
                 q = sum((hk * e / s_) ** 2 for e, s_ in zip(ev, sc))
-                # err_norm = || delta / scale ||_2 / sqrt(n)
-                require_identity(red, en ** 2 * n, q, key_prefix=f"{name}: err_norm^2 * n == sum((err_vec/scale)^2)")
+                # reference: err_norm = || delta / scale ||_2 / sqrt(n)
+                spec2, lhs, rhs_ = q / n, en ** 2 * n, q
+                label = f"{name}: err_norm^2 * n == sum((err_vec/scale)^2)"
             else:
                 q5 = sum((hk * e / s_) ** 2 for e, s_ in zip(a5, sc))
                 q3 = sum((hk * e / s_) ** 2 for e, s_ in zip(a3, sc))
-                # Hairer's combined estimate: err = ||d5||^2 / sqrt(||d5||^2 + 0.01 ||d3||^2) / sqrt(n), d = delta/scale
-                require_identity(red, en ** 2 * n * (q5 + q3 / 100), q5 ** 2,
-                                 key_prefix=f"{name}: err_norm^2 * n * (|d5|^2 + 0.01 |d3|^2) == |d5|^4  (d = embedded difference / scale)")
+                # reference (Hairer): err = ||d5||^2 / sqrt(||d5||^2 + 0.01 ||d3||^2) / sqrt(n), d = delta / scale
+                spec2, lhs, rhs_ = q5 ** 2 / ((q5 + q3 / 100) * n), en ** 2 * n * (q5 + q3 / 100), q5 ** 2
+                label = f"{name}: err_norm^2 * n * (|d5|^2 + 0.01 |d3|^2) == |d5|^4  (d = embedded difference / scale)"
+            try:
+                require_identity(red, lhs, rhs_, key_prefix=label)
+            except Refuted as r:
+                # Not the reference norm.  The property needs only that an ACCEPTED step has its embedded estimate within the
+                # requested tolerance: a violation is a concrete point where the criterion is laxer than the reference
+                # (err_norm < reference); a criterion that is at least as strict everywhere sampled is left undecided.
+                import random
+                rnd = random.Random(20260926)
+                syms = sorted(sp.sympify(en).free_symbols | sp.sympify(spec2).free_symbols, key=str)
+                asked = [(op, d, (accept if op in ("le", "lt") else (not accept))) for op, d in got.get("asked", [])]
+                for x in set().union(*[sp.sympify(d).free_symbols for _, d, _ in asked]) if asked else ():
+                    if x not in syms:
+                        syms.append(x)
+                used = 0
+                for trial in range(400):
+                    pt = {x: sp.Rational(rnd.randint(1, 64), rnd.randint(1, 64)) for x in syms}
+                    if h in pt:
+                        pt[h] = sp.Rational(1, 2 ** rnd.randint(1, 6)) if trial % 2 == 0 else sp.Integer(2 ** rnd.randint(1, 6))
+                    for x in sc:       # scales large / small enough for the accepting / rejecting path to be feasible
+                        if x in pt:
+                            pt[x] = pt[x] * (4096 if accept else sp.Rational(1, 4096))
+                    # the expression was obtained on ONE path: only points on that path (all recorded branch decisions) count
+                    ok = True
+                    for op, d, r_ in asked:
+                        dv = float(sp.N(sp.sympify(d).subs(pt), 30))
+                        if {"lt": dv < 0, "le": dv <= 0, "gt": dv > 0, "ge": dv >= 0, "eq": dv == 0, "ne": dv != 0}[op] != r_:
+                            ok = False
+                            break
+                    if not ok:
+                        continue
+                    used += 1
+                    e_v, s_v = float(sp.N(sp.sympify(en).subs(pt), 30)), float(sp.N(sp.sqrt(spec2).subs(pt), 30))
+                    if e_v < s_v * (1 - 1e-9):
+                        raise Refuted(r.key, f"{r.detail}; at h = {pt.get(h)} (estimates / scales {[(str(k), str(v)) for k, v in pt.items() if k != h]}) "
+                                      f"the driver's err_norm is {e_v:.6g} while the tolerance-scaled norm of the embedded estimate is "
+                                      f"{s_v:.6g}: a step whose estimate exceeds the requested tolerance by {s_v / max(e_v, 1e-300):.3g}x "
+                                      f"is accepted as soon as err_norm <= 1", replay=_REPLAY_ERRNORM,
+                                      inputs={str(k): str(v) for k, v in pt.items()})
+                raise symx.Undecided(f"{name}: the acceptance norm is not the reference norm ({r.key}) but was at least as strict at "
+                                     f"the {used} sampled points of the executed path (h from 1/64 to 64); not decided")
             if sp.sympify(en).subs({x: 1 for x in sp.sympify(en).free_symbols}).evalf() < 0:
                 raise Refuted(f"{name}: negative error norm", str(en))
 
